@@ -116,10 +116,31 @@ pub fn check(case: &Case, obs: &mut Obs) -> Verdict {
                 .copied()
                 .unwrap_or((0, text));
             let (s, e) = (pl.start - poff, pl.end.saturating_sub(poff).min(para.len()));
-            match boundaries(para, o) {
+            let mut ex = match boundaries(para, o) {
                 Some(bs) => !bs.iter().any(|b| s < *b && *b < e),
                 None => return Verdict::Skipped("split points differ from the splitter's specified rule (deferred to C12)"),
+            };
+            if !ex && super::textlevel::has_stray_breaks(text, o.le()) {
+                // the other admissible reading of "paragraph" (every LF, with one CR before it, ends one; section 5,
+                // item 14 g): a break opportunity that exists only because of a CR that is part of a line ending
+                // is not held against the line
+                let mut off = 0usize;
+                for piece in text.split('\n') {
+                    let p2 = piece.strip_suffix('\r').unwrap_or(piece);
+                    if off <= pl.start && pl.start <= off + p2.len() {
+                        let (s2, e2) = (pl.start - off, pl.end.saturating_sub(off).min(p2.len()));
+                        if let Some(bs) = boundaries(p2, o) {
+                            ex = !bs.iter().any(|b| s2 < *b && *b < e2);
+                            if ex {
+                                obs.bump("universal_newline_reading_admitted");
+                            }
+                        }
+                        break;
+                    }
+                    off += piece.len() + 1;
+                }
             }
+            ex
         };
         if !exempt {
             return Verdict::Violated(format!(
